@@ -108,6 +108,8 @@ def run(ctx):
     r12_missing_hash(ctx)
     index_then_insert(ctx, "C17.R13")
     r14_declared_index_order(ctx)
+    r15_row_order_is_column_order(ctx)
+    groupby_and_union_order(ctx, "C17.R16")
 
 
 def _arms(fn):
@@ -285,6 +287,48 @@ def r14_declared_index_order(ctx, rule="C17.R14"):
         ok = (isinstance(inner, ast.Name) and inner.id == IDX) or \
              (isinstance(inner, (ast.GeneratorExp, ast.ListComp)) and len(inner.generators) == 1 and unparse(inner.generators[0].iter) == IDX and unparse(inner.elt) == unparse(inner.generators[0].target))
         ctx.ob(rule, RES, "Table.__init__", x, "the index columns are kept in the order they were declared in", ok, detail={"stored": unparse(v)})
+
+
+def r15_row_order_is_column_order(ctx, rule="C17.R15"):
+    """Rows are positional: row[i] belongs to columns[i] (where(row_pred) hands rows to the caller's predicate).  The storage dict has its own order -- a mapping given with an
+    explicit column list in another order, or a ragged insert adding several columns at once -- so rows are assembled through the column list, never through the dict's order."""
+    ctx.rule(rule, "Table assembles rows in the order of self._columns: no method zips / unpacks self._data.values() (or items / iteration of the storage dict) into rows")
+    cls = ctx.model.cls(RES, "Table")
+    n = 0
+    for name, fn in sorted(cls.methods.items()):
+        for c in [c for c in ast.walk(fn) if isinstance(c, ast.Call) and call_name(c) in ("zip", "map", "list", "tuple", "iter", "chain")]:
+            raw = [a_ for a_ in ast.walk(c) if isinstance(a_, ast.Call) and isinstance(a_.func, ast.Attribute) and a_.func.attr in ("values", "items") and unparse(a_.func.value) == "self._data"]
+            star = any(isinstance(a_, ast.Starred) for a_ in c.args)
+            if raw and star:
+                n += 1
+                ctx.ob(rule, RES, f"Table.{name}", c, "rows are assembled column by column in the order of self._columns", False, detail={"expression": unparse(c)[:100]})
+    it = cls.methods.get("__iter__")
+    ok = it is not None and any(isinstance(y, ast.Subscript) and unparse(y.value) == "self" for y in ast.walk(it)) or (it is not None and "self._columns" in unparse(it))
+    ctx.ob(rule, RES, "Table.__iter__", it if it is not None else cls.node, "iteration yields rows through the column-ordered access self[...]", bool(ok), stmt="Table.__iter__ order")
+
+
+def groupby_and_union_order(ctx, rule):
+    """(a) groupby(level) pairs the ranges of index column `level` with a key read from the FIRST `level` INDEX columns -- the leading columns of the table are the same
+    thing only when the header lists the index columns first; (b) the union of several keyword selections is handed to the view in ascending row order (the view still
+    claims its parent's index; an unsorted union leaves id columns unsorted under bisect)."""
+    ctx.rule(rule, "Table.groupby builds its keys from self._indexes[:level] (the columns its ranges are computed over); Table.where sorts the union of several keyword selections (sorted(set(..)))")
+    gb = ctx.fn(RES, "Table.groupby")
+    LEVEL = gb.args.args[1].arg
+    comps = [c for c in ast.walk(gb) if isinstance(c, (ast.ListComp, ast.GeneratorExp)) and "self._data[" in unparse(c.elt) and isinstance(c.generators[0].iter, ast.Subscript)
+             and isinstance(c.generators[0].iter.slice, ast.Slice) and unparse(c.generators[0].iter.slice.upper or ast.Constant(None)) == LEVEL]
+    ctx.floor(rule, "key-column comprehensions in Table.groupby", len(comps), 1)
+    for c in comps:
+        it = c.generators[0].iter
+        ok = isinstance(it, ast.Subscript) and unparse(it.value) == "self._indexes" and isinstance(it.slice, ast.Slice) and it.slice.lower is None and it.slice.upper is not None
+        ctx.ob(rule, RES, "Table.groupby", c, "group keys are read from the index columns the ranges belong to", ok, detail={"over": unparse(it)})
+    wh = ctx.fn(RES, "Table.where")
+    SEL = "selection"
+    multi = [x for x in ast.walk(wh) if isinstance(x, ast.If) and "len(kwargs)" in unparse(x.test)]
+    ctx.floor(rule, "multi-keyword arm in Table.where", len(multi), 1)
+    for m_ in multi:
+        st = [y for y in ast.walk(m_) if isinstance(y, ast.Assign)]
+        ok = len(st) == 1 and isinstance(st[0].value, ast.Call) and call_name(st[0].value) == "sorted" and not st[0].value.keywords
+        ctx.ob(rule, RES, "Table.where", st[0] if st else m_, "the union of several keyword selections is de-duplicated AND sorted into table order", ok, detail={"union": unparse(st[0].value) if st else None})
 
 
 def sub_lohis_runs(ctx, rule):
@@ -644,6 +688,9 @@ def _drop_le(tree):
 
 
 CONTROLS = [
+    ("group keys read from the leading columns", RES, M.replace_expr("Table.groupby", "self._indexes[:level]", "self._columns[:level]"), "C17.R16"),
+    ("keyword union de-duplicated but not sorted", RES, M.replace_expr("Table.where", "sorted(set(selection))", "list(dict.fromkeys(selection))"), "C17.R16"),
+    ("rows iterate in storage order", RES, M.replace_expr("Table.__iter__", "zip(*self[:])", "zip(*self._data.values())"), "C17.R15"),
     ("declared indexes re-ordered by column order", RES, M.replace_expr("Table.__init__", "tuple(indexes)", "tuple((c for c in self._columns if c in indexes))"), "C17.R14"),
     ("from_logged_envs indexes its empty tables first", RES, M.insert_before("Result.from_logged_envs", lambda st: isinstance(st, ast.FunctionDef), "int_table.index('environment_id', 'learner_id', 'evaluator_id', 'index')"), "C17.R13"),
     ("NaN arguments are bisected", RES, M.delete_stmt("Table._compare", M.text_has("arg != arg")), "C17.R10"),
